@@ -495,7 +495,7 @@ class Interp:
             return list(it.keys())
         if isinstance(it, Columns):
             n = it.names()
-            return list(n) if n is not None else None
+            return [PyTuple(c.split("\x1f")) if isinstance(c, str) and "\x1f" in c else c for c in n] if n is not None else None
         return None
 
     def st_Assign(self, st):
